@@ -83,7 +83,8 @@ class dtml_re_class:
                 end = '/'
 
             else:
-                if text[s:s + 5] == '&dtml' and text[s + 5] in '.-':
+                if text[s:s + 5] == '&dtml' and \
+                   text[s + 5:s + 6] in ('.', '-'):
                     n = s + 6
                     e = text.find(';', n)
                     if e >= 0:
